@@ -431,6 +431,35 @@ fn run_parser_cmd(args: &[String]) -> i32 {
     let behs: Vec<parser_run::PBeh> = text.lines().filter(|l| !l.trim().is_empty())
         .map(|l| serde_json::from_str(l).expect("behaviour line")).collect();
     let sweep: usize = arg(args, "--sweep-stride").and_then(|s| s.parse().ok()).unwrap_or(0);
+    if family == "c11t" {
+        // histories in which time passes: every (history, protocol) on its own thread - they mostly sleep
+        let lines: Vec<String> = std::thread::scope(|sc| {
+            let mut hs = vec![];
+            for (i, beh) in behs.iter().enumerate() {
+                for pr in Proto::all() {
+                    let table = &table;
+                    hs.push(sc.spawn(move || {
+                        let mut r = conc::rng(seed, &format!("parser-c11t-{}-{}", i, pr.name()));
+                        let inst = parser_run::make_pinst(&mut r, i + pr.v as usize);
+                        let base = (i * 7919 + pr.v as usize * 104729) % parser_run::RENDERINGS;
+                        let tsel = move |j: usize| (base + j * 6151) % parser_run::RENDERINGS;
+                        parser_run::run_pbehaviour(&format!("t{}:{}", i, pr.name()), pr, beh, table, &inst, &tsel, &mut r).to_string()
+                    }));
+                }
+            }
+            hs.into_iter().map(|h| h.join().expect("thread")).collect()
+        });
+        let mut f = std::io::BufWriter::new(std::fs::File::create(&out).expect("out"));
+        let mut side = std::io::BufWriter::new(std::fs::File::create(format!("{}.conc", out)).expect("out"));
+        for l in &lines {
+            let mut v: Value = serde_json::from_str(l).unwrap();
+            let conc = v.as_object_mut().unwrap().remove("conc").unwrap_or(Value::Null);
+            writeln!(f, "{}", v).unwrap();
+            writeln!(side, "{}", conc.as_str().unwrap_or("")).unwrap();
+        }
+        println!("{}", lines.len());
+        return 0;
+    }
     let chunks: Vec<Vec<String>> = std::thread::scope(|sc| {
         let mut hs = vec![];
         for t in 0..THREADS {
